@@ -273,8 +273,7 @@ def fold_zero_is_a_sequence(x: int, y: int, p: int, q: int) -> bool:
 # --- added after round-4 seeded changes: for-each-pair stops at the shorter sequence; a named reference keeps the focus it was created under ---
 
 T.update(parse_all({
-    'fep': 'for-each-pair($A, $B, function($a, $b) { ($a, $b) })', 'fep_count': 'for-each-pair($A, $B, function($a, $b) { count(($a, $b)) })',
-    'fep_named': 'for-each-pair($A ! string(.), $B ! string(.), concat#2)',
+    'fep_len': 'for-each-pair($A, $B, function($a, $b) { ($a, $b) })', 'fep_len_count': 'for-each-pair($A, $B, function($a, $b) { count(($a, $b)) })',
 }))
 
 
@@ -287,7 +286,7 @@ def for_each_pair_stops_at_the_shorter(a0: int, a1: int, a2: int, n: int, b0: in
     """
     A, Bs = [a0, a1, a2][:n], [b0, b1, b2][:m]
     k = min(n, m)
-    return ev(T['fep'], A=A, B=Bs) == [w for x, y in zip(A, Bs) for w in (x, y)] and ev(T['fep_count'], A=A, B=Bs) == [2] * k
+    return ev(T['fep_len'], A=A, B=Bs) == [w for x, y in zip(A, Bs) for w in (x, y)] and ev(T['fep_len_count'], A=A, B=Bs) == [2] * k
 
 
 import xml.etree.ElementTree as _CET16  # noqa: E402
